@@ -266,33 +266,44 @@ Definition as_f1 (l : lin) : option (N * expr) :=
   | _ => None
   end.
 
+(* one constructor call; [rec] stands for the (mutually) recursive calls sin(ret_arg), cos(ret_arg)... *)
+Section Step.
+  Variable rec : trigfn -> Z -> lin -> tres.
+
+  (* after the head tests: trig_simplify and the dispatch on its outputs *)
+  Definition ctor_go (f : trigfn) (sg : Z) (arg : lin) : tres :=
+    let ts := trig_simplify (period_of f) (odd_of f) (conj_odd_of f) arg in
+    if ts_conj ts then rec (cofn f) (sg * ts_sign ts) (ts_rarg ts)
+    else if lin_is_zero (ts_rarg ts) then
+      match ts_index ts with
+      | Some i => RTab (sg * ts_sign ts) f i
+      | None => RUninit
+      end
+    else if ts_sign ts =? 1 then
+      if negb (lin_eqb (ts_rarg ts) arg) then rec f sg (ts_rarg ts)
+      else RFun sg f arg
+    else rec f (- sg) (ts_rarg ts).
+
+  (* f(F^-1(a)) = a, f(G^-1(a)) = 1/a *)
+  Definition ctor_inv (f : trigfn) (sg : Z) (arg : lin) : tres :=
+    match as_f1 arg with
+    | Some (code, a) =>
+        if (code =? inv_direct f)%N then RArg sg a
+        else if (code =? inv_recip f)%N then RRecip sg a
+        else ctor_go f sg arg
+    | None => ctor_go f sg arg
+    end.
+
+  Definition ctor_step (f : trigfn) (sg : Z) (arg : lin) : tres :=
+    if lin_is_zero arg then
+      match zero_val f with Some v => RVal (sg * v) | None => ctor_inv f sg arg end
+    else ctor_inv f sg arg.
+End Step.
+
 Fixpoint ctor (fuel : nat) (f : trigfn) (sg : Z) (arg : lin) : tres :=
   match fuel with
   | O => RFuel
-  | S fuel' =>
-      let go_on :=
-        let ts := trig_simplify (period_of f) (odd_of f) (conj_odd_of f) arg in
-        if ts_conj ts then ctor fuel' (cofn f) (sg * ts_sign ts) (ts_rarg ts)
-        else if lin_is_zero (ts_rarg ts) then
-          match ts_index ts with
-          | Some i => RTab (sg * ts_sign ts) f i
-          | None => RUninit
-          end
-        else if ts_sign ts =? 1 then
-          if negb (lin_eqb (ts_rarg ts) arg) then ctor fuel' f sg (ts_rarg ts)
-          else RFun sg f arg
-        else ctor fuel' f (- sg) (ts_rarg ts) in
-      let inverse :=
-        match as_f1 arg with
-        | Some (code, a) =>
-            if (code =? inv_direct f)%N then RArg sg a
-            else if (code =? inv_recip f)%N then RRecip sg a
-            else go_on
-        | None => go_on
-        end in
-      if lin_is_zero arg then
-        match zero_val f with Some v => RVal (sg * v) | None => inverse end
-      else inverse
+  | S fuel' => ctor_step (ctor fuel') f sg arg
   end.
 
 Definition CTOR_FUEL : nat := 12%nat.
@@ -396,7 +407,9 @@ Definition xnum_sub_pos (p cur : xnum) : bool :=     (* (p - cur).is_positive() 
   | XQ a, XQ b => qlt b a
   | XQ _, XInf => false
   | XQ _, XNegInf => true
-  | _, _ => false
+  | XInf, XQ _ => true
+  | XInf, XNegInf => true
+  | _, _ => false               (* -oo - x, oo - oo (NaN), -oo - -oo (NaN): not positive *)
   end.
 (* every argument is first tested for Complex (exception); the first Number only initialises *)
 Fixpoint max_loop (cur : xnum) (l : list xnum) : foldres :=
